@@ -4,7 +4,7 @@ CHECK = dict(
     property='C03', level='exploration',
     families=[('reorg', 1.0)],
     budget=dict(quick=50, thorough=900), max_runs=dict(quick=200_000, thorough=5_000_000),
-    rule=('each evaluation = one simulated run of the real server through a generated history of chain '
+    rule=('the server must not stop on an exception of its own (other than a DaemonError) while following chain events inside the quantifier (clause server.died); each evaluation = one simulated run of the real server through a generated history of chain '
           'extensions, forks (depth 1..reorg limit, strictly longer, or equal/shorter followed by extension), '
           'forks discovered mid-batch, back-to-back forks, fork blocks re-mining / double-spending the '
           'abandoned branch, and forced reorgs through a real LocalRPC session, under cache-pressure '
@@ -15,7 +15,7 @@ CHECK = dict(
           'done literally: a fresh simulated server indexes the final chain and its full snapshot (incl. raw '
           'tables and tx numbers) must be identical. non-trivial = >= 1 block was undone and an '
           'audit completed; distinct = distinct interleaving signature'),
-    assumptions=['SimDB/SimFS stand in for LevelDB and the file system (batches atomic, completed '
+    assumptions=['a simulated plyvel module (under the real LevelDB class of electrumx.server.storage) and SimFS stand in for the LevelDB engine and the file system (batches atomic, completed '
                  'operations durable: process death, not power loss)',
                  'the model bitcoind serves only valid chains; fork depth within the property\'s '
                  'quantifier (reorg limit counted from the highest height the daemon reported; chain '
